@@ -118,6 +118,7 @@ def ewidth(e):
   if k == "inv": return ewidth(e[1])
   if k in ("zext", "sext", "trunc"): return e[2]
   if k == "cat": return sum(ewidth(x) for x in e[1])
+  if k == "csl": return e[3] - e[2]     # slice [lo:hi] of a call result ( concat(..)[lo:hi], sext(..)[lo:hi] )
   if k == "ite": return ewidth(e[2]) if ewidth(e[2]) is not None else ewidth(e[3])
   raise KeyError(k)
 
@@ -128,7 +129,7 @@ def expr_refs(e, out):
   elif k in ("c", "fv", "lv"): pass
   elif k == "tv": out.append({"tmp": e[1]})
   elif k in ("bin", "cmp"): expr_refs(e[2], out); expr_refs(e[3], out)
-  elif k in ("inv", "zext", "sext", "trunc"): expr_refs(e[1], out)
+  elif k in ("inv", "zext", "sext", "trunc", "csl"): expr_refs(e[1], out)
   elif k == "red": expr_refs(e[2], out)
   elif k == "cat":
     for x in e[1]: expr_refs(x, out)
@@ -190,7 +191,8 @@ def subst_expr(e, env):
   if k in ("c", "fv", "tv"): return e
   if k in ("bin", "cmp"): return [k, e[1], subst_expr(e[2], env), subst_expr(e[3], env)]
   if k == "inv": return [k, subst_expr(e[1], env)]
-  if k in ("zext", "sext", "trunc"): return [k, subst_expr(e[1], env), e[2]]
+  if k in ("zext", "sext", "trunc"): return [k, subst_expr(e[1], env)] + list(e[2:])
+  if k == "csl": return [k, subst_expr(e[1], env), e[2], e[3]]
   if k == "red": return [k, e[1], subst_expr(e[2], env)]
   if k == "cat": return [k, [subst_expr(x, env) for x in e[1]]]
   if k == "ite": return [k, subst_expr(e[1], env), subst_expr(e[2], env), subst_expr(e[3], env)]
@@ -231,7 +233,10 @@ def expr_text(e):
   if k == "bin": return f"({expr_text(e[2])} {BINOPS[e[1]]} {expr_text(e[3])})"
   if k == "cmp": return f"({expr_text(e[2])} {CMPOPS[e[1]]} {expr_text(e[3])})"
   if k == "inv": return f"(~{expr_text(e[1])})"
-  if k in ("zext", "sext", "trunc"): return f"{k}({expr_text(e[1])}, {e[2]})"
+  if k in ("zext", "sext", "trunc"):
+    if len(e) > 3 and e[3] == "kw": return f"{k}(value={expr_text(e[1])}, new_width={e[2]})"        # keyword arguments
+    return f"{k}({expr_text(e[1])}, {e[2]})"
+  if k == "csl": return f"{expr_text(e[1])}[{e[2]}:{e[3]}]"
   if k == "cat": return "concat(" + ", ".join(expr_text(x) for x in e[1]) + ")"
   if k == "ite": return f"({expr_text(e[2])} if {expr_text(e[1])} else {expr_text(e[3])})"
   if k == "red": return f"reduce_{e[1]}({expr_text(e[2])})"
@@ -267,6 +272,7 @@ def ev(e, rd, env=None):
     a, w0 = ev(e[1], rd, env), ewidth(e[1])
     return (a - (1 << w0) if a >> (w0 - 1) else a) & mask(e[2])
   if k == "trunc": return ev(e[1], rd, env) & mask(e[2])
+  if k == "csl": return (ev(e[1], rd, env) >> e[2]) & mask(e[3] - e[2])
   if k == "cat":
     r = 0
     for x in e[1]:
@@ -745,7 +751,18 @@ class Gen:
     if r < 0.9:
       w0 = rng.choice([x for x in self.k["widths"] if x != w] or [w + 1])
       a = self._explicit(w0, srcs, depth - 1)
-      return [rng.choice(["zext", "sext"]), a, w] if w0 < w else ["trunc", a, w]
+      node = [rng.choice(["zext", "sext"]), a, w] if w0 < w else ["trunc", a, w]
+      cs = self.k.get("p_callshapes", 0)
+      if cs and rng.random() < cs: node = node + ["kw"]
+      elif cs and rng.random() < cs and w < 200:
+        # the same value as a slice of a (wider) call result: sext( a, w + x )[lo:lo+w] / concat( .., a, .. )[..]
+        if rng.random() < 0.5:
+          ext = rng.randrange(1, 9); inner = self._explicit(w, srcs, depth - 1)
+          node = ["csl", [rng.choice(["zext", "sext"]), inner, w + ext], 0, w]
+        else:
+          k2 = rng.randrange(1, 9)
+          node = ["csl", ["cat", [self._explicit(k2, srcs, depth - 1), self._explicit(w, srcs, depth - 1)]], 0, w]
+      return node
     if w == 1:
       return self.cond(srcs, depth - 1)
     return self.leaf(w, srcs)
